@@ -38,7 +38,7 @@ func (r *RAT[K, V]) Find(k K, predicate func(V) bool) (V, bool) {
 	}
 
 	for i := idx; i >= 0; i-- {
-		v := r.values[k][idx]
+		v := r.values[k][i]
 		if predicate(v) {
 			return v, true
 		}
@@ -48,7 +48,7 @@ func (r *RAT[K, V]) Find(k K, predicate func(V) bool) (V, bool) {
 		return zero, false
 	}
 	for i := r.length - 1; i > idx; i-- {
-		v := r.values[k][idx]
+		v := r.values[k][i]
 		if predicate(v) {
 			return v, true
 		}
